@@ -56,6 +56,16 @@ def run(ctx):
                     mixed.append(l)
                 vid = R.add(base, src=render.program(base, layout=mixed))
                 R.rel("eq", ["C12"], a=bid, b=vid)
+    # real programs as written (comments in Japanese, tab layouts, blank lines: /verif/corpus) against their canonical re-rendering,
+    # and the same text under the other two line-ending conventions
+    import corpus
+    ncorpus = 0
+    for name, a, b, nst, nraw in corpus.add(R, tags=("C12",)):
+        ncorpus += 1
+        ca = next(c for c in R.cases if c["id"] == a)
+        for eol in ("\r\n", "\r"):
+            vid = R.add(ca["stmts"], src=ca["src"].replace("\n", eol))
+            R.rel("eq", ["C12"], a=a, b=vid)
     R.run()
     # the same through the real command (cmd/gosk reads and decodes the file itself): line-ending conventions x leading comment
     import hashlib, os
